@@ -91,9 +91,9 @@ def run(chk):
             subs = {ab: True for ab in c['ABs']}
             subs.update({x: True for x in sub})
             cols = [x for x in ('pos', 'vel', 'pid') if x in sub or (x in ('pos', 'vel') and 'rv' in sub)]
-            flds = ['id', 'N'] if r % 3 else ['id', 'N', 'x_com', 'r50_com']
+            flds = ['id', 'N'] if (r // 5) % 3 else ['id', 'N', 'x_com', 'r50_com']       # rotations use unrelated periods: no two options move in lock-step
             kw = dict(cleaned=c['cleaned'], subsamples=subs, fields=flds, filter_func=ff)
-            path = zd if r % 2 else files
+            path = zd if (r // 7) % 2 else files
             desc = (f'catalog #{ci} {[[(h["nA"], h["gA"], h["mA"], h["nB"], h["mB"], h["away"]) for h in sl] for sl in cat]} cleaned={c["cleaned"]} subsamples={subs} '
                     + (f'filter keeps rows {cc.kept_rows(c)} (by id)' if c['kind'] == 'filter' else f'filter h["N"] >= {c["thr"]} (expected rows {cc.kept_rows(c)})'))
             payload = dict(cat=cat, mask=c['mask'], kind=c['kind'], cleaned=c['cleaned'], ABs=c['ABs'])
